@@ -39,9 +39,9 @@ ASSUME PolyValue(<< [c |-> 1, e |-> <<1, 1, 1>>] >>, <<1, 2, 3>>, 3) = [num |-> 
 \*   graded nodal families):  worst observed 1.7e-12 (enforce + elasticity on a Delaunay mesh; graded enforce +
 \*   reaction under splu 1.6e-12)                                    -> TolSolve    = 2^-26 = 1.5e-8  (factor 9e3)
 \*   penalize (default epsilon: entries 1e10 next to O(1) ones; a backward-stable solve of THAT system gives
-\*   ~1e-16 * 1e10 * cond):  8.5e-11 with spsolve, 3.7e-6 with splu  -> TolPenalize = 2^-8  = 3.9e-3  (factor 1e3)
+\*   ~1e-16 * 1e10 * cond):  8.5e-11 with spsolve, 3.7e-6 with splu  -> TolPenalize = 2^-7  = 7.8e-3  (factor 2e3)
 TolSolve    == FxTol(26)
-TolPenalize == FxTol(8)
+TolPenalize == FxTol(7)
 TolOfMethod(method) == IF method = "penalize" THEN TolPenalize ELSE TolSolve
 
 \* scale of the solution: 1 + the largest integer part of |P| over the DOF locations of the scenario
